@@ -6,9 +6,9 @@ import (
 	"bufio"
 	"bytes"
 	"context"
-	"errors"
 	"encoding/hex"
 	"encoding/json"
+	"errors"
 	"fmt"
 	"io"
 	"os"
@@ -514,10 +514,14 @@ func (s *c13state) violation(fn int, in []byte, gen string, size int, risk bool,
 }
 
 // explore does the level-wise search over the token alphabet.
-func (s *c13state) explore(layer string, tokensAt func(depth int) []string, allow func(prefix []byte, tok string, depth int) bool, maxDepth int, sizes []int) {
+// It starts from `level` (nil = the empty input) at depth fromDepth and returns
+// the extendable prefixes of the last level (nil when stopped by the budget).
+func (s *c13state) explore(layer string, tokensAt func(depth int) []string, allow func(prefix []byte, tok string, depth int) bool, level []c13item, fromDepth, maxDepth int, sizes []int) []c13item {
 	r := s.r
-	level := []c13item{{in: nil, alive: [2]bool{true, true}, root: -1}}
-	for depth := 1; depth <= maxDepth && len(level) > 0; depth++ {
+	if level == nil {
+		level = []c13item{{in: nil, alive: [2]bool{true, true}, root: -1}}
+	}
+	for depth := fromDepth; depth <= maxDepth && len(level) > 0; depth++ {
 		var next []c13item
 		var jobs []c13job
 		var jobItems []c13item
@@ -567,7 +571,7 @@ func (s *c13state) explore(layer string, tokensAt func(depth int) []string, allo
 					next = append(next, ci)
 				}
 				if s.evals++; s.evals%4096 == 0 && r.TimeUp() {
-					return
+					return nil
 				}
 			}
 		}
@@ -580,7 +584,7 @@ func (s *c13state) explore(layer string, tokensAt func(depth int) []string, allo
 				e := min(b+batch, len(jobs))
 				out, err := c13runChild(jobs[b:e])
 				if err == errC13Stopped {
-					return
+					return nil
 				}
 				if err != nil {
 					panic(err)
@@ -597,13 +601,14 @@ func (s *c13state) explore(layer string, tokensAt func(depth int) []string, allo
 					}
 				}
 				if r.TimeUp() {
-					return
+					return nil
 				}
 			}
 		}
 		r.Bounds[layer+"_level_"+strconv.Itoa(depth)+"_extendable"] = len(next)
 		level = next
 	}
+	return level
 }
 
 func TestVerif_C13(t *testing.T) {
@@ -664,48 +669,23 @@ func TestVerif_C13(t *testing.T) {
 		r.Assume("the search does not extend a prefix once it produced a violation for that function (extensions hit the same allocation/panic first)")
 
 		sizes := []int{4096, 32}
-		// ---- deep nesting (input generated inside the child; never in-process: a stack overflow is not recoverable)
-		if r.Mine(0) {
-			levels := 1500000
-			r.Bounds["nesting_levels"] = levels
-			frames := vrun.Pick(r, []string{"*1\r\n"}, []string{"*1\r\n", "%1\r\n+k\r\n", "*?\r\n", "|1\r\n+k\r\n", ">1\r\n"})
-			for _, fr := range frames {
-				for fn := 0; fn < 2; fn++ {
-					j := c13job{Gen: "nest:" + hex.EncodeToString([]byte(fr)) + ":" + strconv.Itoa(levels), Size: 4096}
-					j.Mask[fn] = true
-					out := make([]c13jobRes, 1)
-					dj, _, fatal, err := c13spawn([]c13job{j}, out) // alone in a fresh child
-					if err != nil {
-						panic(err)
-					}
-					res := out[0].res[fn]
-					if dj >= 0 {
-						res = &c13res{Out: "crash", Detail: fatal}
-					}
-					if res == nil {
-						panic("nest: no result")
-					}
-					r.StateStr("nest", j.Gen, strconv.Itoa(fn))
-					r.NonTrivialStr("nest", j.Gen, strconv.Itoa(fn))
-					s.judge(fn, nil, j.Gen, 4096, true, res)
-				}
-			}
-		}
 		// ---- layer raw
 		rawTokens := []string{"+", "-", ":", "$", "_", "#", ",", "(", "!", "=", "*", "~", "%", ">", "|", ";", ".", "X",
 			"0", "1", "7", "-1", "-2", "-9223372036854775808", "9223372036854775807", "99999999999999999999", "1073741824", "65536", "?",
 			"\r\n", "\r", "\n", "ab"}
 		huge := []byte("1073741824")
-		s.explore("raw", func(int) []string { return rawTokens }, func(prefix []byte, tok string, depth int) bool {
-			// every 1 GiB allocation costs a noticeable fraction of a second in the child: bound position and total length
-			if tok == "1073741824" && depth > hugeRawPos {
-				return false
-			}
-			if depth > hugeRawTotal && bytes.Contains(prefix, huge) {
-				return false
-			}
-			return true
-		}, rawDepth, sizes)
+		runRaw := func() {
+			s.explore("raw", func(int) []string { return rawTokens }, func(prefix []byte, tok string, depth int) bool {
+				// every 1 GiB allocation costs a noticeable fraction of a second in the child: bound position and total length
+				if tok == "1073741824" && depth > hugeRawPos {
+					return false
+				}
+				if depth > hugeRawTotal && bytes.Contains(prefix, huge) {
+					return false
+				}
+				return true
+			}, nil, 1, rawDepth, sizes)
+		}
 
 		// ---- layer line
 		mk := func(types string, nums []string) (out []string) {
@@ -727,14 +707,15 @@ func TestVerif_C13(t *testing.T) {
 			lineReduced = mk("+$*%;.", []string{"", "1", "-2", "?", "65536"})
 			lineReduced = append(lineReduced, "_\r\n", "a\r\n", "ab", "\r\n", "X")
 		}
-		s.explore("line", func(depth int) []string {
+		lineAt := func(depth int) []string {
 			if depth <= lineFullDepth {
 				return lineTokens
 			}
 			return lineReduced
-		}, func(prefix []byte, tok string, depth int) bool {
+		}
+		lineAllow := func(prefix []byte, tok string, depth int) bool {
 			if strings.Contains(tok, "1073741824") && depth > hugeLineDepth {
-				// 1 GiB allocations are slow even in the child: deeper only as a chunk header (quick: one level deeper)
+				// 1 GiB allocations are slow even in the child: deeper only as a chunk header (one level deeper)
 				if !(tok[0] == ';' && depth <= hugeLineDepth+1) {
 					return false
 				}
@@ -743,7 +724,41 @@ func TestVerif_C13(t *testing.T) {
 				return false // quick tier: prefixes that already needed the child are not extended with the reduced alphabet
 			}
 			return true
-		}, lineDepth, sizes)
+		}
+		// order: the cheap and most productive part first, so that a wall-clock cap on a loaded machine cuts the bulk, not the findings
+		lvl := s.explore("line", lineAt, lineAllow, nil, 1, 2, sizes)
+		// ---- deep nesting (input generated inside the child; never in-process: a stack overflow is not recoverable)
+		if r.Mine(0) {
+			levels := 1500000
+			r.Bounds["nesting_levels"] = levels
+			frames := vrun.Pick(r, []string{"*1\r\n"}, []string{"*1\r\n", "%1\r\n+k\r\n", "*?\r\n", "|1\r\n+k\r\n", ">1\r\n"})
+			for _, fr := range frames {
+				for fn := 0; fn < vrun.Pick(r, 1, 2); fn++ { // streamTo reaches the same code through readNextMessage
+					j := c13job{Gen: "nest:" + hex.EncodeToString([]byte(fr)) + ":" + strconv.Itoa(levels), Size: 4096}
+					j.Mask[fn] = true
+					out := make([]c13jobRes, 1)
+					dj, _, fatal, err := c13spawn([]c13job{j}, out) // alone in a fresh child
+					if err != nil {
+						panic(err)
+					}
+					res := out[0].res[fn]
+					if dj >= 0 {
+						res = &c13res{Out: "crash", Detail: fatal}
+					}
+					if res == nil {
+						panic("nest: no result")
+					}
+					r.StateStr("nest", j.Gen, strconv.Itoa(fn))
+					r.NonTrivialStr("nest", j.Gen, strconv.Itoa(fn))
+					s.judge(fn, nil, j.Gen, 4096, true, res)
+				}
+			}
+		}
+
+		runRaw()
+		if lvl != nil && lineDepth > 2 && !r.TimeUp() {
+			s.explore("line", lineAt, lineAllow, lvl, 3, lineDepth, sizes)
+		}
 		r.Bounds["line_reduced_alphabet"] = len(lineReduced)
 		r.Bounds["raw_alphabet"] = len(rawTokens)
 		r.Bounds["line_alphabet"] = len(lineTokens)
